@@ -251,7 +251,11 @@ def op_faults(sx, tt, op, kinds, lengths):
         sx.check(ok, "errno-does-not-match-error-kind:%s:%s" % (who, burst.kind))
         if absorbed_expected and not burst.at_sector_select:
             sx.check(False, not_absorbed_label(who, burst))
-        if op in ("read", "write", "writebig") and not tt.startswith("tt4"):
+        silent = burst.at_sector_select and burst.kind == "timeout"
+        # (a lost second SECTOR SELECT packet is taken for its passive
+        # acknowledgement: reader and tag disagree about the sector from
+        # then on, by design of the protocol - nothing is demanded)
+        if op in ("read", "write", "writebig") and not tt.startswith("tt4") and not silent:
             # the error is over (the burst is used up): the application repeats
             # the operation through the same tag object
             return ["error", op, burst.kind, repeat_after_error(sx, w, tag, pre_ndef, op, msg, who)]
@@ -267,7 +271,7 @@ def op_faults(sx, tt, op, kinds, lengths):
             sx.reach("read_gave_none")
             if absorbed_expected:
                 sx.check(False, not_absorbed_label(who, burst))
-            if not tt.startswith("tt4"):
+            if not tt.startswith("tt4") and not (burst.at_sector_select and burst.kind == "timeout"):
                 return ["done", op, burst.kind, repeat_after_error(sx, w, tag, pre_ndef, op, msg, who)]
         else:
             sx.check(sx.eq(outcome[1], w.old), "read-result-differs-after-faults:" + who)
